@@ -340,7 +340,11 @@ class Ctx:
                 return
         if signature in [v['signature'] for v in self.violations]:
             return
-        if len(self.violations) >= 5:       # one cause, many inputs: keep the report readable
+        # one cause, many inputs: keep the report readable -- at most 5 violations with a failing
+        # input and at most 3 without one (so that correspondence breaks found first never crowd
+        # out the failing input a later part of the check finds)
+        same = [v for v in self.violations if bool(v['no_input']) == bool(no_input)]
+        if len(same) >= (3 if no_input else 5):
             self.suppressed = getattr(self, 'suppressed', 0) + 1
             return
         os.makedirs(os.path.join(VERIF, 'evidence', 'replays'), exist_ok=True)
@@ -357,7 +361,7 @@ class Ctx:
     def finish(self, level='proof'):
         for h in self.known_hits:
             print(f'KNOWN-FINDING: property={self.prop} {h["what"]}')
-        for v in self.violations:
+        for v in sorted(self.violations, key=lambda v: bool(v['no_input'])):
             tail = ' no-failing-input-found' if v['no_input'] else ''
             print(f'VIOLATION property={self.prop} replay={v["replay"]}{tail}')
             print(f'  ({v["what"]})')
